@@ -240,39 +240,53 @@ func ruleTreeKey(c *Ctx) []Obligation {
 		vp, isVP := l.val.(*ssa.Parameter)
 		switch {
 		case isKP && isVP:
-			// inserting helper: every call site passes (x.Name, ToEntry(x)) or (x.Name, v) with v := ToEntry(x)
-			ki, vi := paramIndex(l.fn, kp), paramIndex(l.fn, vp)
-			node := c.Graph().Nodes[l.fn]
+			// inserting helper: every call site passes (x.Name, ToEntry(x)) or (x.Name, v) with v := ToEntry(x);
+			// a call site that forwards its own (key, value) parameters is followed to its callers
 			nSites, okAll := 0, true
 			var badSite string
-			for _, e := range node.In {
-				if e.Site == nil || e.Caller.Func.Synthetic != "" {
-					continue
-				}
-				nSites++
-				args := e.Site.Common().Args
-				if ki >= len(args) || vi >= len(args) {
+			var visit func(fn *ssa.Function, ki, vi, depth int)
+			visit = func(fn *ssa.Function, ki, vi, depth int) {
+				node := c.Graph().Nodes[fn]
+				if node == nil || depth > 3 {
 					okAll = false
-					continue
+					return
 				}
-				k, v := args[ki], args[vi]
-				_, kf, kbase := loadedField(k)
-				call := entryFromCall(v, toEntry)
-				if kf == nil || kf.Name() != "Name" || call == nil {
-					okAll = false
-					badSite = c.InstrPos(e.Site)
-					continue
-				}
-				// the converted node is the one whose Name is the key
-				arg := call.Call.Args[0]
-				if mi, okm := arg.(*ssa.MakeInterface); okm {
-					arg = mi.X
-				}
-				if !sameObject(arg, kbase) {
-					okAll = false
-					badSite = c.InstrPos(e.Site)
+				for _, e := range node.In {
+					if e.Site == nil || e.Caller.Func.Synthetic != "" {
+						continue
+					}
+					args := e.Site.Common().Args
+					if ki >= len(args) || vi >= len(args) {
+						okAll = false
+						continue
+					}
+					k, v := args[ki], args[vi]
+					if pk, isPK := k.(*ssa.Parameter); isPK {
+						if pv, isPV := v.(*ssa.Parameter); isPV {
+							visit(e.Caller.Func, paramIndex(e.Caller.Func, pk), paramIndex(e.Caller.Func, pv), depth+1)
+							continue
+						}
+					}
+					nSites++
+					_, kf, kbase := loadedField(k)
+					call := entryFromCall(v, toEntry)
+					if kf == nil || kf.Name() != "Name" || call == nil {
+						okAll = false
+						badSite = c.InstrPos(e.Site)
+						continue
+					}
+					// the converted node is the one whose Name is the key
+					arg := call.Call.Args[0]
+					if mi, okm := arg.(*ssa.MakeInterface); okm {
+						arg = mi.X
+					}
+					if !sameObject(arg, kbase) {
+						okAll = false
+						badSite = c.InstrPos(e.Site)
+					}
 				}
 			}
+			visit(l.fn, paramIndex(l.fn, kp), paramIndex(l.fn, vp), 0)
 			if okAll && nSites > 0 {
 				obs = append(obs, ok(R, con, pos, fmt.Sprintf("all %d call sites pass (x.Name, ToEntry(x)) for the same x", nSites)))
 			} else {
